@@ -31,8 +31,8 @@ def AgreeAt (ws : WState) (σ : Slot) : Prop :=
 /-- … for all slots of a worker -/
 def Agree (ws : WState) : Prop := ∀ σ, AgreeAt ws σ
 
-/-- `_last_pickled_state` denotes the worker's `LAST_STATE` -/
-def LastAgree (ws : WState) : Prop := ws.bel.last = ws.act.last
+/-- a non-`None` `_last_pickled_state` denotes the worker's `LAST_STATE` -/
+def LastLe (ws : WState) : Prop := ∀ x, ws.bel.last = some x → ws.act.last = some x
 
 /-- the slots a `compile` request supplies a value for -/
 def CReq.slots (r : CReq) : List (Slot × Tok) :=
@@ -46,42 +46,18 @@ def CReq.slots (r : CReq) : List (Slot × Tok) :=
 def Safe (ws : WState) (r : CReq) : Prop :=
   ws.bel.dbs r.db ≠ none → ∀ p ∈ r.slots, ws.bel.get p.1 = some p.2 → ws.act.get p.1 = some p.2
 
-/-! ### hypotheses on histories -/
+/-! ### the one hypothesis on histories that is left
 
-/-- No failure after the worker has started to overwrite its state: the global
-    schema and the system config always unpickle, and the result can always be
-    sent back (no status 2). -/
-def CReq.noLateFail (env : Env) (r : CReq) : Prop :=
-  env.bad r.glob = false ∧ env.bad r.sys = false ∧ r.out ≠ .resultUnpicklable
+Status 2 (`could not serialize result in worker subprocess`): the worker has
+synced and compiled, but `BaseWorker.call` gets no exception object and no
+result, and does not run the acknowledgement callback. -/
 
-/-- What `new or old` needs for slot `σ`: a supplied reflection cache /
-    database config is truthy; a falsy schema pickle (`b''`) cannot be
-    unpickled. -/
-def CReq.falsyOK (env : Env) (r : CReq) : Slot → Prop
-  | .schema db => db = r.db → env.falsy r.schema = true → env.bad r.schema = true
-  | .refl db => db = r.db → env.falsy r.refl = false
-  | .dbcfg db => db = r.db → env.falsy r.dbcfg = false
-  | .glob => True
-  | .sys => True
-
-def Req.noLateFail (env : Env) : Req → Prop
-  | .compile r => r.noLateFail env
+def Req.noStatus2 : Req → Prop
+  | .compile r => r.out ≠ .resultUnpicklable
   | .tx _ => True
 
-def Req.falsyOK (env : Env) (σ : Slot) : Req → Prop
-  | .compile r => r.falsyOK env σ
-  | .tx _ => True
-
-/-- Nothing goes wrong after the worker-side compiler state was touched: the
-    state returned by the compiler can always be pickled and sent back, and a
-    failing in-transaction compilation does not mutate the state it was given. -/
-def Req.noStateLoss : Req → Prop
-  | .compile r => r.out ≠ .statePickleFail ∧ r.out ≠ .resultUnpicklable
-  | .tx r => r.out ≠ .statePickleFail ∧ r.out ≠ .resultUnpicklable ∧ r.out ≠ .raiseMutated
-
-def NoLateFail (env : Env) (h : List Req) : Prop := ∀ q ∈ h, q.noLateFail env
-def FalsyOK (env : Env) (σ : Slot) (h : List Req) : Prop := ∀ q ∈ h, q.falsyOK env σ
-def NoStateLoss (h : List Req) : Prop := ∀ q ∈ h, q.noStateLoss
+/-- no `compile` request of the history ended with status 2 -/
+def NoStatus2 (h : List Req) : Prop := ∀ q ∈ h, q.noStatus2
 
 /-! ### "identities never come back"
 
@@ -147,38 +123,5 @@ def TObs.usedState (o : TObs) (r : TReq) : Prop :=
 /-- … and, when it (re)set the root user schema, set it to the supplied one -/
 def TObs.usedRoot (o : TObs) (r : TReq) : Prop :=
   ∀ u, o.used = some u → ∀ s, u.root = some s → s = r.schema
-
-/-! ### a candidate repair (NOT the code that exists)
-
-`pool.py`: when `worker.call(…)` raises, set `worker._last_pickled_state = None`
-before re-raising — in `compile_in_tx` (`stepTxFixed`) and, optionally, in
-`compile` (`stepCompileFixed`). -/
-
-/-- `worker._last_pickled_state = None` unless the call returned normally -/
-def clearLastUnlessOk (st : State) (w : Nat) (res : Res) : State :=
-  if res = .ok then st else upd st w ⟨{ (st w).bel with last := none }, (st w).act⟩
-
-def stepTxFixed (env : Env) (st : State) (r : TReq) : State × TObs :=
-  (clearLastUnlessOk (stepTx env st r).1 r.w (stepTx env st r).2.res, (stepTx env st r).2)
-
-def stepCompileFixed (env : Env) (st : State) (r : CReq) : State × CObs :=
-  (clearLastUnlessOk (stepCompile env st r).1 r.w (stepCompile env st r).2.res,
-   (stepCompile env st r).2)
-
-/-- one request of the repaired pool; `fixCompile` says whether `compile` is repaired too -/
-def stepFix (fixCompile : Bool) (env : Env) (st : State) : Req → State
-  | .compile r => if fixCompile then (stepCompileFixed env st r).1 else (stepCompile env st r).1
-  | .tx r => (stepTxFixed env st r).1
-
-def execFix (fixCompile : Bool) (env : Env) (st : State) : List Req → State
-  | [] => st
-  | q :: qs => execFix fixCompile env (stepFix fixCompile env st q) qs
-
-/-- hypothesis left when only `compile_in_tx` is repaired: `compile` never loses a state -/
-def CompileNoStateLoss (h : List Req) : Prop :=
-  ∀ r, Req.compile r ∈ h → r.out ≠ .statePickleFail ∧ r.out ≠ .resultUnpicklable
-
-/-- a non-`None` `_last_pickled_state` denotes the worker's `LAST_STATE` -/
-def LastLe (ws : WState) : Prop := ∀ x, ws.bel.last = some x → ws.act.last = some x
 
 end EdbVerif.Sync
